@@ -14,6 +14,8 @@ r = subprocess.run(["git", "-C", "/repo", "apply", patch], capture_output=True, 
 if r.returncode != 0:
     print("patch does not apply:", r.stderr); sys.exit(2)
 res = {}
+# runs against a seeded change must never overwrite the evidence / replay files of the real tree
+os.environ["VERIF_OUT_DIR"] = "/verif/target/seed-out"
 import signal
 def _bail(signum, frame):
     raise KeyboardInterrupt()
